@@ -1,3 +1,146 @@
-(* C10 placeholder while the proofs are being built *)
-From Coq Require Import List ZArith.
+(* C10 — a relation tagged #[ds(ascent_byods_rels::eqrel)] behaves as its explicit equivalence closure.
+
+   Model: Byods/EqRelModel.v (union_find.rs EqRel with path compression; eqrel_ind.rs old/combined pair, its
+   views and merge; ceqrel_ind.rs parallel wrapper; eqrel_ternary.rs per-key map + reverse map AS WRITTEN, driven
+   the way ascent_codegen.rs drives a provider).  Interface: Byods/Provider.v, laws P1-P5 over what the views
+   return, for a closure operator; closure: Byods/Closure.v.  Proofs: Byods/EqRelUF.v (union-find), EqRelProofs.v
+   (binary provider), EqRelPar.v (parallel wrapper), Ternary.v (generic per-key lifting), EqRelTernary.v.
+
+   What is a theorem here and what is carried by the tie (gen/props/c10.py):
+   * PROVED, for every history of insertions / merges / stratum boundaries (no bound on length, element or class
+     count; every schedule of concurrent insertions is a history because one insertion is one atomic step):
+     the binary provider, serial and parallel, satisfies P1-P5 with cl = equivalence closure on mentioned
+     elements, every view ([0,1], [0], [1], none; index_get, iter_all, contains_key) being proved against the
+     closure; the parallel wrapper never panics; the per-key lifting of ANY provider that meets the laws meets
+     them with the per-key closure, provided the merge keeps every key's versions.
+   * REFUTED (computed witnesses, replayed on the real code by the tie): the ternary structure as written.
+   * `_partial`: the statement of the property itself is about PROGRAMS ("run() leaves exactly the least model of
+     the program plus the explicit reflexivity / symmetry / transitivity rules, and every rule reading the
+     relation derives what it would derive from that explicit relation").  That is the composition of the
+     provider laws with the engine theorem:
+
+       engine_with_providers :
+         validate arities P pl = true -> every `ds` relation r of P is served by a provider meeting
+         provider_ok with closure cl_r -> run_plan_ds fuel pl (init_state F0) = Some st ->
+         least_model I (P ++ closure_rules P) F0 (rows st ++ what the providers' totals serve)
+
+     It needs (1) an engine model `run_plan_ds` (Engine/Eval.v extended) in which a clause over a ds relation reads
+     `p_get / p_all` of the provider state instead of an index of the shared multiset, the head update is
+     `p_contains total || p_contains delta || p_ins`, and the per-iteration / per-stratum protocol is PMerge /
+     PRestart; (2) Engine/EvalSpec.v's eval_variant_spec for such clauses, from P4 (a Delta position may be
+     over-approximated inside total + delta: sound because total + delta is inside every closed superset, harmless
+     for completeness), P5; (3) Engine/SemiNaive.v's stratum invariant with "closed" extended by the closure rules:
+     Provider.merge_total is (SN) for the closure rules, Provider.served_closed is their closedness at every loop
+     head, Provider.quiescent_exit / first_insert_succeeds give "changed = false => the stored total is closed",
+     Provider.restart_serves hands the relation to the next stratum.  The provider-side lemmas are proved below
+     (the c10_engine_facing theorems); the engine-side extension is not done: the program-level statement is carried by the
+     PROG half of the tie (tagged program vs explicit program against the specification oracle). *)
+From Coq Require Import List ZArith Bool.
 From AV Require Import Byods.EqRelModel.
+From AV Require Import Byods.EqRelUF.
+From AV Require Import Byods.Closure.
+From AV Require Import Byods.Provider.
+From AV Require Import Byods.EqRelProofs.
+From AV Require Import Byods.EqRelPar.
+From AV Require Import Byods.Ternary.
+From AV Require Import Byods.EqRelTernary.
+Import ListNotations.
+Open Scope Z_scope.
+
+(* the closure the laws speak about is the one of the explicit rules: least relation containing the pairs,
+   reflexive on mentioned elements, symmetric, transitive; and it is a closure operator *)
+Theorem c10_closure_is_explicit_rules : forall l x y, In (x, y) (eqv l) <-> eqv_rel l x y.
+Proof. exact eqv_spec. Qed.
+Theorem c10_closure_operator : closure_op T2 eqv.
+Proof. exact eqv_closure_op. Qed.
+
+(* union_find.rs: add joins the classes of its arguments (and nothing else), reports false exactly when they were
+   already related; path compression does not change the relation; the invariant is kept *)
+Theorem c10_union_find_add : forall e x y, wf e ->
+  wf (fst (e_add e x y)) /\ (forall a b, erel (fst (e_add e x y)) a b <-> joined e x y a b)
+  /\ snd (e_add e x y) = negb (e_contains e x y).
+Proof. exact e_add_spec. Qed.
+
+(* binary form, serial: P1-P5 for every history *)
+Theorem c10_eqrel_binary_provider_ok_partial : provider_ok T2 eqrel_binary eqv.
+Proof. exact eqrel_binary_provider_ok. Qed.
+
+(* binary form, parallel: the same laws (insertions are atomic steps), and no panic on the protocol *)
+Theorem c10_eqrel_par_provider_ok_partial : provider_ok T2 eqrel_par eqv.
+Proof. exact eqrel_par_provider_ok. Qed.
+Theorem c10_eqrel_par_never_panics : forall h,
+  (forall x y, exists r, p_insert (run T2 eqrel_par h) x y = Ok r)
+  /\ (exists s', EqRelModel.p_merge (run T2 eqrel_par h) = Ok s')
+  /\ (exists d t, unwrap_frozen (EqRelModel.p_delta (run T2 eqrel_par h)) = Ok d /\ unwrap_frozen (EqRelModel.p_total (run T2 eqrel_par h)) = Ok t).
+Proof. exact eqrel_par_never_panics. Qed.
+
+(* what the engine consumes from the laws (any provider, any closure operator) *)
+Theorem c10_engine_facing_merge : forall (P : provider T2) cl, provider_ok T2 P cl ->
+  forall h, same_set (p_read T2 P (run T2 P (h ++ [PMerge])) VTotal) (served T2 P (run T2 P h)).
+Proof. intros P cl H h. exact (merge_total T2 P cl H h). Qed.
+Theorem c10_engine_facing_closed : forall (P : provider T2) cl, closure_op T2 cl -> provider_ok T2 P cl ->
+  forall h, incl (cl (served T2 P (run T2 P h))) (served T2 P (run T2 P h)).
+Proof. intros P cl Hc H h. exact (served_closed T2 P cl Hc H h). Qed.
+Theorem c10_engine_facing_exit : forall (P : provider T2) cl, provider_ok T2 P cl ->
+  forall h, g_new T2 (ghost_of T2 h) = [] ->
+  same_set (p_read T2 P (run T2 P (h ++ [PMerge])) VTotal) (served T2 P (run T2 P (h ++ [PMerge]))).
+Proof. intros P cl H h Hn. exact (quiescent_exit T2 P cl H h Hn). Qed.
+Theorem c10_engine_facing_first_insert : forall (P : provider T2) cl, closure_op T2 cl -> provider_ok T2 P cl ->
+  forall h t s' b, g_new T2 (ghost_of T2 h) = [] -> p_ins T2 P (run T2 P h) t = (s', b) -> b = true.
+Proof. intros P cl Hc H h t s' b. exact (first_insert_succeeds T2 P cl Hc H h t s' b). Qed.
+Theorem c10_engine_facing_restart : forall (P : provider T2) cl, closure_op T2 cl -> provider_ok T2 P cl ->
+  forall h, same_set (served T2 P (run T2 P (h ++ [PRestart]))) (p_read T2 P (run T2 P h) VTotal)
+            /\ p_read T2 P (run T2 P (h ++ [PRestart])) VTotal = [].
+Proof. intros P cl Hc H h. exact (restart_serves T2 P cl Hc H h). Qed.
+
+(* per-key lifting: a map from the first column to providers meeting the laws meets them with the per-key
+   closure, IF the merge applies the binary merge to every key and keeps the result (Ternary.l_merge) *)
+Theorem c10_ternary_lifting : forall (T : Type) (B : provider T) cl, closure_op T cl -> provider_ok T B cl ->
+  provider_ok (T3 T) (lift T B) (cl3 T cl) /\ closure_op (T3 T) (cl3 T cl).
+Proof. intros T B cl Hc H. split; [exact (lift_provider_ok T B cl Hc H)|exact (cl3_closure_op T cl Hc)]. Qed.
+Theorem c10_eqrel_ternary_lifted_ok : provider_ok T3z eqrel_ternary_lifted eqv3.
+Proof. exact eqrel_ternary_lifted_ok. Qed.
+
+(* the ternary structure as written does not meet the laws: neither its merge alone (F1: the merged delta of a
+   key is dropped) nor as driven by generated code (the full-index write view merges a second time), and
+   iter_all of the view on columns [1,2] is unsound *)
+Theorem c10_ternary_refuted :
+  ~ provider_ok T3z (eqrel_ternary_real false) eqv3 /\ ~ provider_ok T3z (eqrel_ternary_real true) eqv3.
+Proof. split; [exact ternary_merge_refuted|exact ternary_protocol_refuted]. Qed.
+Theorem c10_ternary_refuted_witness_f1 :
+  In (0, (1, 2)) (eqv3 (g_td T3z (ghost_of T3z h_f1)))
+  /\ ~ In (0, (1, 2)) (served T3z (eqrel_ternary_real false) (run T3z (eqrel_ternary_real false) h_f1))
+  /\ ~ In (0, (1, 2)) (p_read T3z (eqrel_ternary_real false) (run T3z (eqrel_ternary_real false) (h_f1 ++ [PMerge])) VTotal).
+Proof. split; [exact f1_in_closure|split; [exact f1_not_served|exact f1_lost]]. Qed.
+Theorem c10_ternary_refuted_witness_protocol :
+  In (0, (0, 1)) (eqv3 (g_td T3z (ghost_of T3z h_twice2)))
+  /\ ~ In (0, (0, 1)) (served T3z (eqrel_ternary_real true) (run T3z (eqrel_ternary_real true) h_twice2)).
+Proof. exact twice_loses. Qed.
+Theorem c10_ternary_refuted_ind12 : forall b,
+  exists l, In (TV12 0 1, l) (p_all T3z (eqrel_ternary_real b) (run T3z (eqrel_ternary_real b) h_i12) VTotal TI12) /\ In (1, (0, 1)) l
+            /\ ~ In (1, (0, 1)) (served T3z (eqrel_ternary_real b) (run T3z (eqrel_ternary_real b) h_i12)).
+Proof. intros b. destruct (i12_entry b) as [l [H1 H2]]. exists l. split; [exact H1|split; [exact H2|exact (i12_not_served b)]]. Qed.
+
+(* non-vacuity: a history with facts for one class over two rounds, a stratum boundary, and the readings *)
+Example c10_example_binary :
+  let h := [PIns (0, 1); PMerge; PIns (1, 2); PIns (0, 2); PMerge] in
+  p_read T2 eqrel_binary (run T2 eqrel_binary h) VTotal = [(0, 0); (1, 0); (0, 1); (1, 1)]
+  /\ length (p_read T2 eqrel_binary (run T2 eqrel_binary h) VDelta) = 5%nat
+  /\ length (eqv (g_td T2 (ghost_of T2 h))) = 9%nat
+  /\ bget (run T2 eqrel_binary h) VDelta (VI0 0) = Some [(0, 2)]
+  /\ p_read T2 eqrel_binary (run T2 eqrel_binary (h ++ [PMerge; PRestart])) VTotal = [].
+Proof. vm_compute. repeat split. Qed.
+Example c10_example_lifted_keeps_what_real_loses :
+  In (0, (1, 2)) (served T3z eqrel_ternary_lifted (run T3z eqrel_ternary_lifted h_f1)).
+Proof. exact lifted_keeps_f1. Qed.
+
+Print Assumptions c10_closure_is_explicit_rules. Print Assumptions c10_closure_operator.
+Print Assumptions c10_union_find_add.
+Print Assumptions c10_eqrel_binary_provider_ok_partial. Print Assumptions c10_eqrel_par_provider_ok_partial.
+Print Assumptions c10_eqrel_par_never_panics.
+Print Assumptions c10_engine_facing_merge. Print Assumptions c10_engine_facing_closed. Print Assumptions c10_engine_facing_exit.
+Print Assumptions c10_engine_facing_first_insert. Print Assumptions c10_engine_facing_restart.
+Print Assumptions c10_ternary_lifting. Print Assumptions c10_eqrel_ternary_lifted_ok.
+Print Assumptions c10_ternary_refuted. Print Assumptions c10_ternary_refuted_witness_f1.
+Print Assumptions c10_ternary_refuted_witness_protocol. Print Assumptions c10_ternary_refuted_ind12.
+Print Assumptions c10_example_binary. Print Assumptions c10_example_lifted_keeps_what_real_loses.
